@@ -571,12 +571,39 @@ class Program:
                         for k in self._ctor_classes(f, it.context_expr):
                             out[it.optional_vars.id].add(k)
                 continue
+            if isinstance(n, ast.Assign) and isinstance(n.value, ast.Call):
+                # a, b = helper(...) where every return of helper is a tuple: each name gets the classes built in its position
+                for t in n.targets:
+                    if isinstance(t, (ast.Tuple, ast.List)) and all(isinstance(e, ast.Name) for e in t.elts):
+                        pos = self._tuple_ctor_returns(f, n.value, len(t.elts))
+                        for e, ks in zip(t.elts, pos or ()):
+                            out[e.id] |= ks
             if val is None or not tgts:
                 continue
             for k in self._ctor_classes(f, val):
                 for t in tgts:
                     out[t.id].add(k)
         self._calls_cache[key] = out
+        return out
+
+    def _tuple_ctor_returns(self, f, call, arity):
+        s = self.resolve_expr(f.mod, call.func)
+        if s is None or s.kind != 'func':
+            return None
+        g = self.funcs.get(s.target)
+        if g is None or g is f:
+            return None
+        rets = [r for r in ast.walk(g.node) if isinstance(r, ast.Return) and r.value is not None]
+        if not rets or not all(isinstance(r.value, ast.Tuple) and len(r.value.elts) == arity for r in rets):
+            return None
+        lt = self.local_types(g)
+        out = [set() for _ in range(arity)]
+        for r in rets:
+            for i, e in enumerate(r.value.elts):
+                if isinstance(e, ast.Call):
+                    out[i] |= self._ctor_classes(g, e, depth=1)
+                elif isinstance(e, ast.Name):
+                    out[i] |= lt.get(e.id, set())
         return out
 
     def _ctor_classes(self, f, call, depth=0):
